@@ -52,7 +52,7 @@ DEADLINE_THOROUGH = 3000
 GROUPS = {
     "coo-a": ["getitem", "reduce"],
     "coo-b": ["reshape", "transpose", "shape", "concatenate", "stack", "roll", "flip", "kron", "pad", "triu", "tril", "diagonal",
-              "elemwise", "sort", "convert", "numba", "product"],
+              "elemwise", "sort", "convert", "request", "numba", "product"],
     "gcxs-a": ["gcxs-getitem"],
     "gcxs-b": ["gcxs-shape", "gcxs-reduce", "gcxs-elemwise", "gcxs-join", "gcxs-product"],
 }
@@ -66,8 +66,8 @@ def ty(t):
 # leg C workers
 # --------------------------------------------------------------------------------------------------
 
-SUBSET16 = ["getitem", "reduce", "reshape", "concatenate", "roll", "flip", "kron", "pad", "triu", "tril", "convert", "numba"]
-MAX_PROCS = 12
+SUBSET16 = ["getitem", "reduce", "reshape", "concatenate", "roll", "flip", "kron", "pad", "triu", "tril", "convert", "request", "numba"]
+MAX_PROCS = 14
 
 
 class Workers:
@@ -81,7 +81,11 @@ class Workers:
         if ctx.quick:
             for t in ("int8", "uint8"):
                 for g, fams in GROUPS.items():
-                    self.jobs.append((t, g, "127,255", "", fams))
+                    if g == "gcxs-a":  # a numba typing failure is not cached: every failing call recompiles (~1 s)
+                        self.jobs.append((t, g + "/127", "127", "", fams))
+                        self.jobs.append((t, g + "/255", "255", "", fams))
+                    else:
+                        self.jobs.append((t, g, "127,255", "", fams))
             # 16-bit limits for a subset of the operations and of the scenarios (own limit of the type only)
             for t, lim in (("int16", "32767"), ("uint16", "65535")):
                 self.jobs.append((t, "coo-a/16", lim, "subset", [f for f in GROUPS["coo-a"] if f in SUBSET16]))
@@ -91,8 +95,12 @@ class Workers:
                 if t == "int64":
                     continue
                 for g, fams in GROUPS.items():
-                    self.jobs.append((t, g, "127,255,32767,65535", "", fams))
+                    for lim in ("127", "255", "32767", "65535"):  # one process per limit: each is 1-3 minutes of CPU
+                        if np.iinfo(t).max >= (17 if int(lim) < 1000 else 257):  # some scenario of that limit fits the dtype
+                            self.jobs.append((t, f"{g}/{lim}", lim, "", fams))
+        self.jobs.sort(key=lambda j: 0 if j[1].startswith('gcxs-a') else 1)  # longest first
         self.pending = list(self.jobs)
+        self.started, self.seconds = {}, {}
         self.running = []
         self.done = []
         self.env = dict(os.environ)
@@ -106,12 +114,14 @@ class Workers:
             if job[-1].poll() is not None:
                 self.running.remove(job)
                 self.done.append(job)
+                self.seconds[f"{job[0]}/{job[1]}"] = round(time.time() - self.started[id(job[-1])], 1)
         while self.pending and len(self.running) < MAX_PROCS:
             t, g, lims, sub, fams = self.pending.pop(0)
             outp = self.dir / f"{t}-{g.replace('/', '_')}.jsonl"
             errp = self.dir / f"{t}-{g.replace('/', '_')}.err"
             cmd = [sys.executable, str(HERE / "c15_legc.py"), t, self.ctx.tier, str(self.ctx.seed), lims, sub, ",".join(fams), str(outp)]
             p = subprocess.Popen(cmd, stdout=subprocess.DEVNULL, stderr=open(errp, "w"), env=self.env)
+            self.started[id(p)] = time.time()
             self.running.append((t, g, outp, errp, p))
 
     def wait(self):
@@ -137,10 +147,18 @@ def collect_workers(ctx, w):
     stats = {"equal": 0, "rejected": 0, "differ": 0}
     per_dtype = {}
     for t, g, outp, errp, p in w.done:
-        if p.returncode != 0:
-            raise RuntimeError(f"leg C worker {t}/{g} failed: {errp.read_text()[-800:]}")
-        for line in outp.read_text().splitlines():
-            r = json.loads(line)
+        pending = last = None
+        for line in (outp.read_text().splitlines() if outp.exists() else []):
+            try:
+                r = json.loads(line)
+            except ValueError:  # a line cut short by a crash
+                break
+            if "begin" in r:
+                pending = r
+                last = {"family": r["family"], "case": r["begin"]}
+                continue
+            pending = None
+            last = r
             case = r["case"]
             stats[r["status"]] += 1
             d = per_dtype.setdefault(t, {"equal": 0, "rejected": 0, "differ": 0})
@@ -149,7 +167,17 @@ def collect_workers(ctx, w):
             if r["status"] == "differ":
                 name = f"{r['family']}:{case['op']}"
                 ctx.fail("C", name, case, r["detail"], finding=findings.classify(PID, name, case, r["detail"]))
-    ctx.notes["oracle"] = {"cases": stats, "per_dtype": per_dtype, "workers": len(w.done)}
+        if p.returncode != 0:
+            if last is not None and p.returncode < 0:
+                # the interpreter died (signal) in or right after this case — heap corruption through a wrapped index shows up
+                # a little later than it is caused: a failing input of the property, not an infrastructure problem
+                name = f"{last['family']}:{last['case']['op']}"
+                stats["differ"] += 1
+                ctx.fail("C", name, last["case"], f"the interpreter was killed by signal {-p.returncode} {'while running' if pending else 'right after'} this case "
+                         f"(worker {t}/{g}; the int64 run returns); the remaining cases of this worker were not run")
+            else:
+                raise RuntimeError(f"leg C worker {t}/{g} failed (exit {p.returncode}): {errp.read_text()[-800:]}")
+    ctx.notes["oracle"] = {"cases": stats, "per_dtype": per_dtype, "workers": len(w.done), "worker_seconds": w.seconds}
 
 
 # --------------------------------------------------------------------------------------------------
@@ -270,6 +298,16 @@ def leg_a(ctx, defects):
         return min(int(np.iinfo(t).max), 70000 if not ctx.quick else (70000 if np.dtype(t).itemsize <= 2 else 3000))
 
     fx = {k: (not v) for k, v in defects.items()}  # True = the proposed fix (or an equivalent one) is in the tree
+    # dtype an index array of dtype t is stored with (W16: the proposed uint64 fix stores uint64 as intp)
+    st = ctx.driver.run([["c15_storedty", fx["F-uint64"], [ty(t) for t in IDX]]])[0]["ok"]
+    eff = {t: _tyname(j) for t, j in zip(IDX, st)}
+
+    def mt(t):
+        return ty(eff[np.dtype(t).name])
+
+    def en(j):
+        n = _tyname(j)
+        return eff.get(n, n)
 
     with warnings.catch_warnings():
         warnings.simplefilter("ignore")
@@ -294,7 +332,7 @@ def leg_a(ctx, defects):
                 except Exception as e:  # noqa: BLE001
                     got = _err(e)
                 add("W1:getitem", {"dtype": t, "n": n, "slice": [s.start, s.stop, s.step], "selected": sel},
-                    ["c15_getitem", ty(t), fx["F-getitem-step"], sel, start, step], got,
+                    ["c15_getitem", mt(t), fx["F-getitem-step"], sel, start, step], got,
                     lambda o: {"ok": sorted(o["ok"])} if "ok" in o else o)
         # ---- W2 _calc_counts_invidx ---------------------------------------------------------------
         for t in all_types:
@@ -323,8 +361,8 @@ def leg_a(ctx, defects):
                     got = {"ok": {"ty": r.coords.dtype.name, "coords": [_ints(row) for row in r.coords]}}
                 except Exception as e:  # noqa: BLE001
                     got = _err(e)
-                add("W3:reshape", {"dtype": t, "from": list(s1), "to": list(s2)}, ["c15_reshape", ty(t), list(s2), lins], got,
-                    lambda o: {"ok": {"ty": _tyname(o["ok"]["ty"]), "coords": o["ok"].get("coords")}} if "ok" in o else o)
+                add("W3:reshape", {"dtype": t, "from": list(s1), "to": list(s2)}, ["c15_reshape", mt(t), list(s2), lins], got,
+                    lambda o: {"ok": {"ty": en(o["ok"]["ty"]), "coords": o["ok"].get("coords")}} if "ok" in o else o)
         # ---- W4 concatenate -----------------------------------------------------------------------
         for t in all_types:
             M = lim(t)
@@ -345,8 +383,8 @@ def leg_a(ctx, defects):
                         got = {"ok": {"ty": r.coords.dtype.name, "coords": sorted(_ints(r.coords[axis]))}}
                     except Exception as e:  # noqa: BLE001
                         got = _err(e)
-                    add("W4:concatenate", {"dtype": t, "n1": n1, "n2": n2, "ndim": nd}, ["c15_concat", ty(t), shape, [p1, p2], [0, n1]], got,
-                        lambda o: {"ok": {"ty": _tyname(o["ok"]["ty"]), "coords": sorted(o["ok"]["coords"])}} if "ok" in o else o)
+                    add("W4:concatenate", {"dtype": t, "n1": n1, "n2": n2, "ndim": nd}, ["c15_concat", mt(t), shape, [p1, p2], [0, n1]], got,
+                        lambda o: {"ok": {"ty": en(o["ok"]["ty"]), "coords": sorted(o["ok"]["coords"])}} if "ok" in o else o)
         # ---- W5 roll ------------------------------------------------------------------------------
         for t in all_types:
             M = lim(t)
@@ -373,7 +411,7 @@ def leg_a(ctx, defects):
                     except Exception as e:  # noqa: BLE001
                         got = _err(e)
                     add("W5:roll", {"dtype": t, "shape": list(shape), "shift": sh, "axis": axv, "kind": kind},
-                        ["c15_roll", ty(t), kind, list(shape), [[int(s), int(a)] for s, a in zip(shs, axs)], [list(i) for i in idxs]], got,
+                        ["c15_roll", mt(t), kind, list(shape), [[int(s), int(a)] for s, a in zip(shs, axs)], [list(i) for i in idxs]], got,
                         lambda o: {"ok": sorted(o["ok"])} if "ok" in o else o)
         # ---- W6 flip ------------------------------------------------------------------------------
         for t in all_types:
@@ -385,7 +423,7 @@ def leg_a(ctx, defects):
                     got = {"ok": sorted(_ints(sparse.flip(x, axis=0).coords[0]))}
                 except Exception as e:  # noqa: BLE001
                     got = _err(e)
-                add("W6:flip", {"dtype": t, "n": n}, ["c15_flip", ty(t), n, pts], got, lambda o: {"ok": sorted(o["ok"])} if "ok" in o else o)
+                add("W6:flip", {"dtype": t, "n": n}, ["c15_flip", mt(t), n, pts], got, lambda o: {"ok": sorted(o["ok"])} if "ok" in o else o)
         # ---- W7 kron, W8 pad -----------------------------------------------------------------------
         def int_or_float(r):
             if r.coords.dtype.kind != "i" and r.coords.dtype.kind != "u":
@@ -397,7 +435,7 @@ def leg_a(ctx, defects):
                 return o
             if o["ok"]["ty"] is None:
                 return {"ok": {"ty": None}}
-            return {"ok": {"ty": _tyname(o["ok"]["ty"]), "coords": sorted(o["ok"]["coords"])}}
+            return {"ok": {"ty": en(o["ok"]["ty"]), "coords": sorted(o["ok"]["coords"])}}
 
         def float_or_err(thunk):
             try:
@@ -414,13 +452,13 @@ def leg_a(ctx, defects):
                 a = _coo([pa], [1] * len(pa), (na,), ta)
                 b = _coo([pb], [1] * len(pb), (nb,), tb)
                 add("W7:kron", {"dtype_a": ta, "dtype_b": tb, "na": na, "nb": nb},
-                    ["c15_kron", ty(ta), ty(tb), nb, [[ca, cb] for ca in pa for cb in pb]], float_or_err(lambda: sparse.kron(a, b)), norm_kp)
+                    ["c15_kron", mt(ta), mt(tb), nb, [[ca, cb] for ca in pa for cb in pb]], float_or_err(lambda: sparse.kron(a, b)), norm_kp)
         for t in all_types:
             M = lim(t)
             for n, before in [(M, 1), (M - 1, 0), (M, M), (5, 3), (M, 2 ** 20)]:
                 pts = sorted({0, n - 1, n // 2})
                 x = _coo([pts], [1] * len(pts), (n,), t)
-                add("W8:pad", {"dtype": t, "n": n, "before": before}, ["c15_pad", ty(t), before, pts],
+                add("W8:pad", {"dtype": t, "n": n, "before": before}, ["c15_pad", mt(t), before, pts],
                     float_or_err(lambda: sparse.pad(x, (before, 1))), norm_kp)
         # ---- W9 triu / tril -------------------------------------------------------------------------
         for t in all_types:
@@ -438,7 +476,7 @@ def leg_a(ctx, defects):
                     except Exception as e:  # noqa: BLE001
                         got = _err(e)
                     add("W9:tri", {"dtype": t, "n": n, "k": k, "lower": lower},
-                        ["c15_tri", ty(t), fx["F-triu-k"], lower, k, [list(p) for p in pairs]], got,
+                        ["c15_tri", mt(t), fx["F-triu-k"], lower, k, [list(p) for p in pairs]], got,
                         lambda o, pairs=pairs: {"ok": [list(p) for p, keep in zip(pairs, o["ok"]) if keep]} if "ok" in o else o)
         # ---- W10 GCXS index dtype ---------------------------------------------------------------------
         for t in all_types:
@@ -458,8 +496,8 @@ def leg_a(ctx, defects):
                     except Exception as e:  # noqa: BLE001
                         got = _err(e)
                     add("W10:gcxsty", {"dtype": t, "req": req, "rows": rows, "cols": cols, "nnz": len(lin)},
-                        ["c15_gcxsty", ty(req) if req else None, ty(t), rows, cols, len(lin), [int(v) for v in true_indptr]], got,
-                        lambda o: {"ok": {"ty": _tyname(o["ok"]["ty"]), "vals": o["ok"]["vals"]}} if "ok" in o else o)
+                        ["c15_gcxsty", mt(req) if req else None, mt(t), rows, cols, len(lin), [int(v) for v in true_indptr]], got,
+                        lambda o: {"ok": {"ty": en(o["ok"]["ty"]), "vals": o["ok"]["vals"]}} if "ok" in o else o)
         # ---- W11 GCXS joiners + uncompress_dimension --------------------------------------------------
         for t in numba_types:
             M = lim(t)
@@ -482,7 +520,7 @@ def leg_a(ctx, defects):
                     got = _err(e)
                 add("W11:gcxs-join", {"dtype": t, "indptr_dtype": a.indptr.dtype.name, "rows": [r1, r2], "nnz": [int(a.nnz), int(b.nnz)]},
                     ["c15_joinptr", ty(a.indptr.dtype), fx["F-gcxs-join-rows"], int(a.nnz + b.nnz), r1 + r2, entries, row_ids], got,
-                    lambda o: {"ok": {"ty": _tyname(o["ok"]["ty"]), "indptr": o["ok"]["indptr"], "rows": o["ok"]["rows"]}} if "ok" in o else o)
+                    lambda o: {"ok": {"ty": en(o["ok"]["ty"]), "indptr": o["ok"]["indptr"], "rows": o["ok"]["rows"]}} if "ok" in o else o)
         # ---- W12 idx_dtype= ---------------------------------------------------------------------------
         for t in all_types:
             M = int(np.iinfo(t).max)
@@ -497,12 +535,12 @@ def leg_a(ctx, defects):
                     try:
                         if how == "COO":
                             r = sparse.COO(np.array(cc, dtype=np.int64), np.ones(len(pts)), shape=shape, idx_dtype=np.dtype(t).type)
-                            got = {"ok": _ints(r.coords[0])} if r.coords.dtype == np.dtype(t) else {"ok": f"dtype {r.coords.dtype}"}
+                            got = {"ok": _ints(r.coords[0])} if r.coords.dtype == np.dtype(eff[t]) else {"ok": f"dtype {r.coords.dtype}"}
                             want_c = pts
                         else:
                             ref = sparse.random(shape, nnz=3, random_state=5)
                             r = sparse.random(shape, nnz=3, random_state=5, idx_dtype=np.dtype(t).type)
-                            got = {"ok": _ints(r.coords[0])} if r.coords.dtype == np.dtype(t) else {"ok": f"dtype {r.coords.dtype}"}
+                            got = {"ok": _ints(r.coords[0])} if r.coords.dtype == np.dtype(eff[t]) else {"ok": f"dtype {r.coords.dtype}"}
                             want_c = _ints(ref.coords[0])
                     except ValueError:
                         got = {"err": "value"}
@@ -510,7 +548,7 @@ def leg_a(ctx, defects):
                     except Exception as e:  # noqa: BLE001
                         got = _err(e)
                         want_c = pts
-                    add("W12:idx_dtype", {"dtype": t, "shape": list(shape), "via": how}, ["c15_idxcast", ty(t), list(shape), want_c], got)
+                    add("W12:idx_dtype", {"dtype": t, "shape": list(shape), "via": how}, ["c15_idxcast", mt(t), list(shape), want_c], got)
         # ---- W13 numba shape boxing ---------------------------------------------------------------------
         for t in numba_types:
             M = int(np.iinfo(t).max)
@@ -524,7 +562,7 @@ def leg_a(ctx, defects):
                     got = {"ok": [int(v) for v in _shape_of()(x)]}
                 except Exception as e:  # noqa: BLE001
                     got = _err(e)
-                add("W13:boxshape", {"dtype": t, "shape": list(shape)}, ["c15_boxshape", ty(t), fx["F-numba-shape"], list(shape)], got)
+                add("W13:boxshape", {"dtype": t, "shape": list(shape)}, ["c15_boxshape", mt(t), fx["F-numba-shape"], list(shape)], got)
         # ---- W14 GCXS reduce row numbers ------------------------------------------------------------------
         for t in numba_types:
             M = lim(t)
